@@ -101,11 +101,12 @@ func (xaManager *XAResourceManager) xaTwoPhaseTimeoutChecker() {
 						return true
 					}
 
-					if connectionXA.xaActive || connectionXA.prepareTime.IsZero() {
+					active, preparedAt := connectionXA.holdState()
+					if active || preparedAt.IsZero() {
 						// still in phase one: the hold time runs from XA PREPARE
 						return true
 					}
-					if time.Now().Sub(connectionXA.prepareTime) > xaManager.config.TwoPhaseHoldTime {
+					if time.Now().Sub(preparedAt) > xaManager.config.TwoPhaseHoldTime {
 						if err := connectionXA.CloseForce(); err != nil {
 							log.Errorf("Force close the xa xid:%s physical connection fail", connectionXA.txCtx.XID)
 						}
